@@ -100,9 +100,10 @@ class Protocol(Component):
             self.send_result(id, Value(event, self))
         else:
             event.success = True  # fire %s_success event
-            event.success_channels = ('node_result',)
+            # the notifications go to this Protocol only: every connection of a server / peer of a node has one
+            event.success_channels = (self,)
             event.complete = True  # fire %s_complete event: the only notification of an event that failed
-            event.complete_channels = ('node_result',)
+            event.complete_channels = (self,)
             event.node_call_id = id
             event.node_sock = self.__sock
 
